@@ -13,7 +13,7 @@ NPT = {"i1": np.int8, "i2": np.int16, "i4": np.int32, "i8": np.int64, "u1": np.u
        "b1": np.bool_}
 
 CLAIM = dict(
-    technique="runtime monitoring: sanitizer-instrumented execution of every reduction / accumulation entry point on arrays with unique labels; the set and order of source elements entering each result element is computed in Python from the definition (non-reduced coordinates match, increasing C order), the fold is replayed in the harness with the library's scalar functor in a plain loop (bit-exact comparison), NumPy ufunc.reduce/accumulate and np.mean/var/std/trace/norm cross-check values and shapes",
+    technique="runtime monitoring: sanitizer-instrumented execution of every reduction / accumulation entry point on arrays with unique labels; the set and order of source elements entering each result element is computed in Python from the definition (non-reduced coordinates match, increasing C order), the fold is replayed in the harness with the library's scalar functor in a plain loop (exact comparison: same bits up to the sign of zero), NumPy ufunc.reduce/accumulate and np.mean/var/std/trace/norm cross-check values and shapes",
     text="view::reduce_{add,multiply,maximum,minimum} (all 54 combinations of axis kind int/list/None x dtype absent/int64/float64 x initial absent/present x keepdims True/False/run-time for add on int32; pairwise-covering 9 for the others and for float64 data), view::reduce with bitwise_and/or/xor, subtract and the order-exposing op acc*31+x, reduce_logical_*, accumulate_* / cumsum / cumprod, sum, prod, amax, amin, mean, var, stddev, vector_norm, trace: result shape == NumPy's; every element == left fold (accumulator of the result type) of exactly the designated source elements in increasing index order; element type == requested dtype / source element type; wrappers == their definitions. Fold order is exposed by subtract and the tagging op. ASan/UBSan/libstdc++ assertions and the bounds hooks watch the same executions. Held-on-observed.",
     note="Trusted: NumPy's reduce/accumulate on exactly representable data (small integers / dyadic rationals; +-1,+-2,+-0.5 for products); the harness' own odometer. Only dynamic ndarrays and run-time axis arguments (other kinds: C09). Only NumPy-valid arguments (invalid: C15); no zero-size diagonals / reductions. The result type of mean/var without dtype is taken from the library's documented promotion (integers -> float32), not from NumPy.",
     ref="DESIGN.md 4/C08")
@@ -305,9 +305,7 @@ def np_reference(m):
                 groups = reduce_groups(a.shape, norm_axes(ax, a.ndim))
                 vals = _py_fold(o, a, groups, init)
                 shp = np.add.reduce(a, axis=axis, keepdims=kd).shape
-                if o["R"][0] == "f":
-                    return np.array(vals, dtype=R).reshape(shp), "exact"
-                return np.array(vals, dtype=object).reshape(shp), "exact"
+                return np.array(vals, dtype=R if o["R"][0] in "fu" else np.int64).reshape(shp), "exact"
             if npop == "mean":
                 s = np.add.reduce(a.astype(np.float64), axis=axis, keepdims=kd)
                 cnt = a.size // max(1, s.size)
@@ -324,7 +322,7 @@ def np_reference(m):
             R = NPT[o["R"]]
             if o["npop"] in ("subtract", "tag"):
                 vals = _py_fold(o, a, accumulate_groups(a.shape, ax % a.ndim), None)
-                return np.array(vals, dtype=object).reshape(a.shape), "exact"
+                return np.array(vals, dtype=R if o["R"][0] in "fu" else np.int64).reshape(a.shape), "exact"
             return getattr(np, o["npop"]).accumulate(a.astype(R), axis=ax), "exact"
         if kind == "var":
             ax = m["axis"]
@@ -347,7 +345,7 @@ def np_reference(m):
 
 def expected(m):
     ref, how = np_reference(m)
-    if ref is None or how != "exact" or ref.dtype == object:
+    if ref is None or how != "exact":
         return None
     return ref
 
